@@ -5,9 +5,11 @@ CONSTANTS
   IsBlob = FALSE
   SetterMarksDirty = TRUE
   ExplicitSha1Recomputes = TRUE
+  DirtyUntilSerialized = TRUE
   ChunkedResetsSha = TRUE
 INVARIANT TypeOK
 INVARIANT IdIsHash
 INVARIANT SerCurrent
+INVARIANT NoStaleAfterFailure
 INVARIANT CacheCoherent
 CHECK_DEADLOCK FALSE
